@@ -8,6 +8,7 @@ PID = "C04"
 def run(chk):
     proofs = lib.check_proofs(PID)
     exes = lib.build_impl(); mdl = lib.build_model()
+    c01.check_long(chk, exes)      # references with a component of 32 768 .. 131 073 characters: parse, recompose (borrowed and owned), compare with the input
     nstates, suite, rnd, corpus, narrow, wide = c01.build_inputs(chk, mdl)
     acc = [f for f, o in zip(narrow, lib.run_lines(mdl, ["parse %s 3" % f for f in narrow])) if o.startswith("parse 0")]
     acc = sorted(set(acc + c01.pair_triple_accepted(mdl)))
